@@ -128,6 +128,28 @@ def _raise(m):
     raise AnalysisError('C19: ' + m)
 
 
+def _weight(run, mi, node, st, var):
+    """the atomic weight argument: a literal, or a module-level constant bound to one.  A constant that is not a finite number (NaN, inf)
+    is a positive diagnosis: the weight takes part in ==, and NaN != NaN, so such a species does not compare equal to itself."""
+    v = const_fold(node)
+    if v is not None:
+        return v
+    if isinstance(node, ast.Name) and node.id in mi.assigns:
+        d = mi.assigns[node.id]
+        v = const_fold(d)
+        if v is not None:
+            return v
+        txt = norm(d).replace('"', "'").lower()
+        if txt in ("float('nan')", "float('inf')", "float('-inf')", 'np.nan', 'numpy.nan', 'math.nan', 'np.inf', 'math.inf', 'nan', 'inf'):
+            run.subject('C19-R2')
+            run.fail('C19-R2', MOD + '|non-finite-weight|%s' % var, PYX, st.lineno,
+                     "%s is defined with the atomic weight %s = %s, which is not a finite number: the weight is one of the compared fields, "
+                     "and NaN is unequal to itself, so this species does not compare equal to itself (a Line or dictionary key built from it "
+                     "is never found again) and every mass-dependent quantity computed from it is NaN" % (var, node.id, norm(d)))
+            return 0.0
+    return None
+
+
 def check(run):
     prog = Program()
     mi = prog.load(PYX)
@@ -165,7 +187,7 @@ def check(run):
         if not (isinstance(a[0], ast.Constant) and isinstance(a[1], ast.Constant)):
             raise AnalysisError('C19: non-literal name/symbol: %s' % norm(st))
         if kind == 'Element':
-            z, w = const_fold(a[2]), const_fold(a[3])
+            z, w = const_fold(a[2]), _weight(run, mi, a[3], st, var)
             if z is None or w is None:
                 raise AnalysisError('C19: non-literal element argument: %s' % norm(st))
             rec = Rec(kind='Element', var=var, name=a[0].value, symbol=a[1].value, atomic_number=z, atomic_weight=w, line=st.lineno)
@@ -173,7 +195,7 @@ def check(run):
         else:
             if not isinstance(a[2], ast.Name):
                 raise AnalysisError('C19: isotope element is not a module-level element name: %s' % norm(st))
-            m, w = const_fold(a[3]), const_fold(a[4])
+            m, w = const_fold(a[3]), _weight(run, mi, a[4], st, var)
             if m is None or w is None:
                 raise AnalysisError('C19: non-literal isotope argument: %s' % norm(st))
             rec = Rec(kind='Isotope', var=var, name=a[0].value, symbol=a[1].value, element_var=a[2].id, mass_number=m,
